@@ -6,6 +6,7 @@ module M = Model
 let wout_of = function
   | A "ok" -> M.WOk | A "fail" -> M.WFail | A "early" -> M.WFailEarly
   | L [A "hit"; id] -> M.WHit (zarg id)
+  | L [A "cancel"; logged] -> M.WCancel (atom logged = "1")
   | _ -> failwith "bad write outcome"
 let b1 x = atom x = "1"
 let eop_of = function
@@ -13,6 +14,7 @@ let eop_of = function
   | L [A "bulk"; atomic; cont; L outs] ->
     M.OBulk (b1 atomic, b1 cont, List.map (fun o -> { M.w_dry = false; M.w_out = wout_of o }) outs)
   | L [A "failcommit"; n] -> M.OFailCommit (nat_of_int (int_of_string (atom n)))
+  | L [A "cancelcommit"; n] -> M.OCancelCommit (nat_of_int (int_of_string (atom n)))
   | L [A "disarm"] -> M.ODisarm
   | _ -> failwith "bad abstract op"
 let act_sx = function
